@@ -131,7 +131,7 @@ func (turnsRunner) Step(t []string) string {
 		}
 	}()
 	wg.Wait()
-	deadline := time.Now().Add(10 * time.Second)
+	deadline := time.Now().Add(30 * time.Second) // generous: only a lost turn makes the loop run into it
 	for turns.Load() < expected && time.Now().Before(deadline) {
 		time.Sleep(time.Millisecond)
 	}
